@@ -651,7 +651,7 @@ SPECS = {
                             "arrival-during-leader-drop-joined", "ondrop-second-thread",
                             "herd-run", "herd-gate-none", "herd-gate-clone", "herd-gate-hash", "herd-lookup-exclusive", "herd-several-keys"],
         "canon": canon,
-        "model_modules": ["TR.Model.Coalesce", "TR.Lemmas.Coalesce", "TR.Lemmas.CoalesceHandle", "TR.Lemmas.CoalesceHerd"],
+        "model_modules": ["TR.Model.Coalesce", "TR.Lemmas.Coalesce", "TR.Lemmas.CoalesceHandle", "TR.Lemmas.CoalesceHerd", "TR.Mutants.CoalesceCallPanicWedges"],
         "lean_files": ["TR.Model.Coalesce", "TR.Lemmas.Coalesce", "TR.Lemmas.CoalesceHandle", "TR.Lemmas.CoalesceHerd"],
         "sizes": (600, 30000),
         "rule": "seeded random op sequences (arrive key=../poll/drop/adv/settle) over 1..3 keys and 1..12 requests, 70% of them on one key, "
